@@ -71,6 +71,15 @@ fn main() {
     config.scrape_exports.enable_scrape_exports = true;
     config.scrape_exports.path = dir.join("export.txt");
     let maps = TorrentMaps::default();
+    if args[4] == "single" {
+        // a fresh process exporting n_old torrents once into a directory that may hold leftovers
+        for h in 1..=n_old {
+            announce(&maps, &config, h, 0, true);
+        }
+        export(&maps, &config);
+        println!("SINGLE-EXPORT-DONE");
+        return;
+    }
     // old generation: torrent h has one seeder
     for h in 1..=n_old {
         announce(&maps, &config, h, 0, true);
